@@ -231,6 +231,17 @@ Theorem C18_store_as_percentage_new_object : forall v w h,
 Proof. exact as_percentage_new_object. Qed.
 Print Assumptions C18_store_as_percentage_new_object.
 
+(* the VALUE of the result, Size level: the heap operation returns an object that decodes to Size.as_percentage_of of the
+   decoded receiver, and raises the same exception otherwise *)
+Theorem C18_store_size_pct_value : forall v w h st a, dec_size st v = Some a ->
+  match size_pct_s v w h st, size_as_pct a w h with
+  | Ok (st', r), Ok a' => dec_size st' r = Some a'
+  | Err e, Err e' => e = e'
+  | _, _ => False
+  end.
+Proof. exact size_pct_value. Qed.
+Print Assumptions C18_store_size_pct_value.
+
 (* which parts of the result are the receiver's own objects (1), other objects (0), None (2); paths: the layout, origin, x, y,
    extent, horizontal, vertical, padding, before, after, start, end, alignment.  The decoded result is the value-level one. *)
 Example C18_ex_store_profile :
